@@ -426,7 +426,8 @@ class Ctx:
             "violations": len(self.violations),
         }
         os.makedirs(EVIDENCE, exist_ok=True)
-        evdir = EVIDENCE if not self._suffix else self.workdir     # only runs on /repo itself write /verif/evidence
+        # only full runs on /repo itself write /verif/evidence (not --replay runs, not VERIF_REPO runs)
+        evdir = EVIDENCE if (not self._suffix and not getattr(self, "replay_mode", False)) else self.workdir
         with open(os.path.join(evdir, self.id + ".json"), "w") as fh:
             json.dump(ev, fh, indent=1, sort_keys=True, default=str)
         return 1 if self.violations else 0
